@@ -79,6 +79,12 @@ class FakeServiceInfo:
     """mdns spec (world.mdns): name -> {"v4": [...], "v6": [...], "latency": s, "outcome": ok|none|error|hang}"""
 
     def __init__(self, type_: str, name: str, server: str | None = None, **kw: Any) -> None:
+        # the real constructor's precondition, decided by the real zeroconf code (BadTypeInNameException for a name whose
+        # instance label is empty, longer than 63 bytes or holds control characters)
+        import zeroconf as _zc_real
+
+        if not type_.endswith(_zc_real.service_type_name(name, strict=False)):
+            raise _zc_real.BadTypeInNameException
         self.type = type_
         self.name = name
         self.server = server
